@@ -98,7 +98,7 @@ def _sf_event(c):
         kw["occupancy"] = {s: 0.7 + 0.2 * i for i, s in enumerate(symbols)}
     if c.get("hard_cutoff"):
         kw["cutoff"] = "hard"
-    ev = {"k": "sf", "case": c, "centering": cen, "raised": False, "friedel_ppb": 0, "mag": [], "tabulated": [], "translation_ppb": 0, "imag_ppb": 0, "lazy_ppb": 0,
+    ev = {"k": "sf", "case": c, "centering": cen, "raised": False, "friedel_ppb": 0, "mag": [], "tabulated": [], "translation_ppb": 0, "imag_ppb": 0, "period_ppb": 0, "lazy_ppb": 0,
           "auto_dropped_nonzero": 0, "friedel_missing": 0}
     with warnings.catch_warnings():
         warnings.simplefilter("ignore")
@@ -144,6 +144,26 @@ def _sf_event(c):
             pot = np.asarray(pot.compute()) if hasattr(pot, "compute") else pot
             if np.iscomplexobj(pot):
                 ev["imag_ppb"] = ppb(float(np.abs(pot.imag).max()) / max(float(np.abs(pot).max()), 1e-30))
+            # the projected potential on the native grid and on a grid asked for explicitly: one period is the cell (orthogonal cells),
+            # so shape x sampling = cell lengths on both axes, and the values are real
+            try:
+                a_len, b_len = float(atoms.cell.lengths()[0]), float(atoms.cell.lengths()[1])
+                ortho = bool(np.allclose(atoms.cell.array - np.diag(np.diag(atoms.cell.array)), 0.0, atol=1e-9))
+                if ortho:
+                    native = sfP.get_projected_potential(slice_thickness=1.0, lazy=False)
+                    n0 = tuple(int(v) for v in native.gpts)
+                    asked = sfP.get_projected_potential(slice_thickness=1.0, gpts=(n0[0] + 3, n0[1] + 5), lazy=bool(c["lazy"]))
+                    worst = 0.0
+                    for p in (native, asked):
+                        worst = max(worst, abs(p.gpts[0] * p.sampling[0] - a_len) / a_len, abs(p.gpts[1] * p.sampling[1] - b_len) / b_len)
+                        arr_p = p.array.compute() if hasattr(p.array, "compute") else p.array
+                        if np.iscomplexobj(arr_p):
+                            ev["imag_ppb"] = max(ev["imag_ppb"], ppb(float(np.abs(np.asarray(arr_p).imag).max()) / max(float(np.abs(np.asarray(arr_p)).max()), 1e-30)))
+                    if tuple(int(v) for v in asked.gpts) != (n0[0] + 3, n0[1] + 5):
+                        worst = 2.0
+                    ev["period_ppb"] = ppb(worst)
+            except (AttributeError, TypeError):
+                pass          # the projected potential is not offered in this form by this version of the API
             if c["lazy"]:
                 lz = StructureFactor(atoms, g_max=g_max, centering="P", **kw).build(lazy=True)
                 la = np.asarray(lz.compute().array) if hasattr(lz, "compute") else np.asarray(lz.array)
@@ -162,7 +182,12 @@ def dyn_event(c):
     with warnings.catch_warnings():
         warnings.simplefilter("ignore")
         try:
-            sf = StructureFactor(atoms, g_max=2 * g_max, centering=cen)
+            src = c.get("source", "prebuilt" if c.get("prebuilt") else "builder")
+            sfkw = {}
+            if src == "builder_occupancy":
+                symbols = sorted(set(atoms.get_chemical_symbols()))
+                sfkw = {"occupancy": {s: 0.6 + 0.25 * i for i, s in enumerate(symbols)}, "thermal_sigma": {s: 0.05 + 0.04 * i for i, s in enumerate(symbols)}}
+            sf = StructureFactor(atoms, g_max=2 * g_max, centering=cen, **sfkw)
             mkbw = lambda s_: BlochWaves(s_, energy=ENERGIES[c["energy"]], sg_max=SG_MAX[c["sg_max"]], g_max=g_max,
                                          orientation_matrix=orientation(c["orientation"]), use_wave_eq=bool(c["use_wave_eq"]))
             if c.get("prebuilt"):
@@ -170,6 +195,11 @@ def dyn_event(c):
                 sf = sf.build(lazy=False)
                 for _ in range(2):
                     mkbw(sf).calculate_diffraction_patterns([50.0], lazy=False)
+                if src == "prebuilt_reordered":
+                    from abtem.bloch.dynamical import StructureFactorArray
+                    hk = np.asarray(sf.hkl)
+                    perm = np.lexsort((hk[:, 2], hk[:, 1], hk[:, 0]))          # ascending (h, k, l): (0, 0, 0) is no longer the first entry
+                    sf = StructureFactorArray(np.asarray(sf.array)[..., perm].copy(), hk[perm].copy(), atoms.cell, sf.g_max, centering=cen)
             bw = mkbw(sf)
             th = {"ascending": [0.0, 37.0, 120.0, 455.5], "descending": [455.5, 120.0, 37.0, 0.0], "unsorted": [120.0, 0.0, 455.5, 37.0],
                   "repeated": [37.0, 0.0, 37.0, 455.5]}[c.get("order", "ascending")]
@@ -188,14 +218,21 @@ def dyn_event(c):
             off = A - np.diag(np.diag(A))
             ev["hermitian_ppb"] = ppb(float(np.abs(off - off.conj().T).max()) / max(float(np.abs(off).max()), 1e-30))
             # the lazy route needs the lazy builder: with a prebuilt array it is the same calculation from freshly built structure factors
-            bwl = mkbw(StructureFactor(atoms, g_max=2 * g_max, centering=cen)) if c.get("prebuilt") else bw
+            bwl = mkbw(StructureFactor(atoms, g_max=2 * g_max, centering=cen, **sfkw)) if c.get("prebuilt") else bw
             lz = np.asarray(bwl.calculate_diffraction_patterns(th, lazy=True).compute().array, dtype=float)
-            ev["lazy_ppb"] = ppb(float(np.abs(lz - inten).max())) if lz.shape == inten.shape else 2 * 10 ** 9
+            # beams are matched by their Miller indices (a user-assembled array lists them in its own order)
+            where = {tuple(int(v) for v in h): i for i, h in enumerate(np.asarray(bwl.hkl))}
+            align = [where.get(tuple(int(v) for v in h), -1) for h in hkl]
+            if lz.shape != inten.shape or min(align) < 0:
+                ev["lazy_ppb"] = 2 * 10 ** 9
+            else:
+                ev["lazy_ppb"] = ppb(float(np.abs(lz[:, align] - inten).max()))
+            i0l = where[(0, 0, 0)]
             worst = 0.0
             for k, z in [(k, z) for k, z in enumerate(th) if z != 0.0][:2]:
                 S = bwl.calculate_scattering_matrix(z)
                 S = np.asarray(S.compute() if hasattr(S, "compute") else S)
-                worst = max(worst, float(np.abs(np.abs(S[:, i0]) ** 2 - inten[k]).max()))
+                worst = max(worst, float(np.abs((np.abs(S[:, i0l]) ** 2)[align] - inten[k]).max()) if min(align) >= 0 else 2.0)
             ev["expm_ppb"] = ppb(worst)
         except Exception as ex:
             ev["raised"] = True
